@@ -184,6 +184,8 @@ package astdiff
 //@   unfold wfV(from) == wfVBody(from)
 //@   unfold wfV(to) == wfVBody(to)
 //@   decreases 2 * vSize(from)
+//@   at call (*go/ast.Comment).End assert [C17] a-region-is-pulled-in-only-to-the-last-comment-in-front-of-the-node-itself: arg0 == before[len(before) - 1]
+//@   at call (*go/ast.Comment).Pos assert [C17] a-region-is-cut-short-only-at-the-first-comment-behind-the-node-itself: arg0 == after[0]
 //@   at call (astdiff.changeFinder).unchanged assert [C17] identical-siblings-keep-their-comments: arg1 == from.Children[i] && arg2 == to.Children[j]
 //@   assigns allof("F.S_astdiff_value.Comments")
 //@   loop 0
